@@ -76,7 +76,9 @@ def Mib.WF (m : Mib) : Prop := m.version < 16 ∧ m.mobile < 2 ∧ m.defaultHopL
 
 def Area.WF (a : Area) : Prop := inS32 a.lat ∧ inS32 a.lon ∧ a.a < 65536 ∧ a.b < 65536 ∧ a.angle < 65536
 
-/-- `length = len(data)` is what the BTP router passes; PL is 16 bits, hop limits 8 bits -/
+/-- `length = data.length`: the contract of the GN-DATA.request primitive for a caller entering at the GN service access
+point; for requests entering at the BTP layer it is DERIVED (`Props.C02.btp_request_length`, any declared length).
+PL is 16 bits, hop limits 8 bits -/
 def Request.WF (r : Request) : Prop :=
   r.nh ∈ Spec.commonNH ∧ r.ht ∈ Spec.headerTypes ∧ r.hst ∈ Spec.subTypes r.ht ∧ r.tc.WF ∧ r.length = r.data.length ∧
   r.length < 65536 ∧ r.area.WF ∧ r.maxHopLimit < 256
